@@ -2,6 +2,11 @@
 #include "mmio.h"
 #include "shared_memory.h"
 
+#ifdef TEAKRA_VERIF
+// Verification hook: reports every data access that is routed into the MMIO window.
+void (*TeakraVerifMmioHook)(std::uint16_t address, bool is_write, std::uint16_t value) = nullptr;
+#endif
+
 namespace Teakra {
 MemoryInterface::MemoryInterface(SharedMemory& shared_memory,
                                  MemoryInterfaceUnit& memory_interface_unit)
@@ -19,6 +24,10 @@ void MemoryInterface::ProgramWrite(u32 address, u16 value) {
 }
 u16 MemoryInterface::DataRead(u16 address, bool bypass_mmio) {
     if (memory_interface_unit.InMMIO(address) && !bypass_mmio) {
+#ifdef TEAKRA_VERIF
+        if (TeakraVerifMmioHook)
+            TeakraVerifMmioHook(address, false, 0);
+#endif
         ASSERT(mmio != nullptr);
         return mmio->Read(memory_interface_unit.ToMMIO(address));
     }
@@ -28,6 +37,10 @@ u16 MemoryInterface::DataRead(u16 address, bool bypass_mmio) {
 }
 void MemoryInterface::DataWrite(u16 address, u16 value, bool bypass_mmio) {
     if (memory_interface_unit.InMMIO(address) && !bypass_mmio) {
+#ifdef TEAKRA_VERIF
+        if (TeakraVerifMmioHook)
+            TeakraVerifMmioHook(address, true, value);
+#endif
         ASSERT(mmio != nullptr);
         return mmio->Write(memory_interface_unit.ToMMIO(address), value);
     }
